@@ -35,6 +35,8 @@ def expr(e):
         return '"' + esc(e["v"]) + '"'
     if k == "rawstr":          # source text of the literal given verbatim
         return '"' + e["v"] + '"'
+    if k == "paren":
+        return "(" + expr(e["e"]) + ")"
     if k == "nil":
         return "nil"
     if k == "var":
